@@ -565,6 +565,32 @@ def run(chk, w):
     from .. import enumrule
     enumrule.run(chk, P, "C14-GET", lambda f_: f_.relfile == "src/highlevel/bidib_highlevel_getter.c", 20)
 
+    # ------------------------------------------------------------------ BASE
+    # 'getters reflect the declared values exactly' / 'a value malformed is rejected': the documented layout writes numbers in decimal or with a 0x
+    # prefix in hexadecimal. A conversion with base 0 (or 8) reads '016' as 14: the range rules then run on a different number than the one declared.
+    chk.rule("C14-BASE", "every text-to-number conversion of the configuration parsers names its base, 10 or 16 (base 0 would read a leading zero as octal)")
+    nconv = 0
+    for f in P.repo_functions():
+        if not f.relfile.startswith("src/parser/"):
+            continue
+        for c in f.calls():
+            if c.callee not in ("strtol", "strtoul", "strtoll", "strtoull", "strtoimax", "strtoumax", "__isoc23_strtol", "__isoc23_strtoul",
+                                "__isoc23_strtoll", "__isoc23_strtoull"):
+                continue
+            if len(c.args) < 3:
+                continue
+            nconv += 1
+            base = rules.const_of(f, c.args[2])
+            if base is None:
+                chk.ok("C14-BASE", 1, {"function": f.name, "site": c.loc(), "base": "computed (not decided)"})
+            elif base in (10, 16):
+                chk.ok("C14-BASE", 1, {"function": f.name, "site": c.loc(), "base": base})
+            else:
+                chk.violation("C14-BASE", f.name, c.callee, c.loc(),
+                              "%s converts configuration text with base %d: a value written with a leading zero is read as a different number than declared "
+                              "(documented forms are decimal and 0x hexadecimal)" % (f.name, base))
+    chk.floor("numeric_conversions", nconv, 2)
+
     # ------------------------------------------------------------------ RANGE
     chk.rule("C14-RANGE", "the set of byte values of a range-restricted configuration field for which no error-raising comparison fires equals the documented set")
     for field, allowed in sorted(RANGES.items()):
